@@ -153,8 +153,10 @@ class Model:
                 "enum Color%s { %s }" % (p(self.color_dirs), " ".join(v + p(self.value_dirs[v]) for v in ENUM_VALUES)),
                 "input In%s { s: Str%s%s c: Color%s n: In%s }" % (p(self.in_dirs), ' = "dflt"' if self.s_default else "", p(self.in_fields["s"]),
                                                               p(self.in_fields["c"]), p(self.in_fields["n"])),
-                "type Obj%s { _t: Str%s }" % (p(self.obj_dirs), p(self.obj_t_dirs)),
-                "type Query { echo(x: Str%s, i: In%s, c: Color%s, l: [Str]%s): Str%s echoColor(c: Color%s): Color obj: Obj strs: [Str] }" % (
+                "interface Node { _t: Str }",
+                "type Obj implements Node%s { _t: Str%s }" % (p(self.obj_dirs), p(self.obj_t_dirs)),
+                "union U = Obj",
+                "type Query { node: Node u: U nodes: [Node] echo(x: Str%s, i: In%s, c: Color%s, l: [Str]%s): Str%s echoColor(c: Color%s): Color obj: Obj strs: [Str] }" % (
                     p(self.echo_args["x"]), p(self.echo_args["i"]), p(self.echo_args["c"]), p(self.echo_args["l"]), p(self.echo_dirs),
                     p(self.color_arg)),
             ])
@@ -290,7 +292,8 @@ def gen_request(rng, m):
             nv[0] += 1
             vn = "v%d" % nv[0]
             vardefs.append("$%s: %s" % (vn, typ))
-            variables[vn] = v
+            # a one-item list may be supplied as the bare item (input coercion wraps it); hooks govern it all the same
+            variables[vn] = v[0] if typ == "[Str]" and len(v) == 1 and rng.random() < 0.6 else v
             return "$" + vn
         if typ == "In" and isinstance(v, dict) and v and r < 0.7:
             k = rng.choice(sorted(v))
@@ -306,10 +309,12 @@ def gen_request(rng, m):
             vardefs.append("$%s: Str" % vn)
             variables[vn] = v[i]
             return "[" + ", ".join(("$" + vn) if j == i else lit(x) for j, x in enumerate(v)) + "]"
+        if typ == "[Str]" and len(v) == 1 and rng.random() < 0.5:
+            return lit(v[0])
         return v if as_enum else lit(v)
 
     for j in range(rng.randint(1, 3)):
-        kind = rng.choice(["echo", "echo", "echo", "color", "obj", "strs"])
+        kind = rng.choice(["echo", "echo", "echo", "color", "obj", "obj", "strs"])
         alias = "f%d" % j
         if kind == "echo":
             args = {}
@@ -353,8 +358,11 @@ def gen_request(rng, m):
             sels.append("%s: echoColor(c: %s)" % (alias, spell("c", "Color", v, as_enum=True)))
             plan.append(("color", alias, v))
         elif kind == "obj":
-            sels.append("%s: obj { _t }" % alias)
-            plan.append(("obj", alias))
+            # the object reached through its concrete type, through an interface, through a union, or as interface list items:
+            # its type-level output hooks govern the value exactly once on every route
+            route = rng.choice(["obj { _t }", "node { _t }", "u { ... on Obj { _t } }", "node { ... on Obj { _t } }", "nodes { _t }"])
+            sels.append("%s: %s" % (alias, route))
+            plan.append(("obj", alias, route.startswith("nodes")))
         else:
             sels.append("%s: strs" % alias)
             plan.append(("strs", alias, None))
@@ -379,7 +387,7 @@ def gen_request(rng, m):
                 rec[item[1]] = r_
                 enum_out.append(eo)
             elif item[0] == "obj":
-                exp[item[1]] = {"_t": fold.obj_t()}
+                exp[item[1]] = [{"_t": fold.obj_t()}, {"_t": fold.obj_t()}] if item[2] else {"_t": fold.obj_t()}
             else:
                 exp[item[1]] = fold.strs(list_items)
         return exp, rec, "".join(enum_out), fold.calls
@@ -411,12 +419,21 @@ async def build(m):
     async def obj(parent, args, ctx, info):
         return {"_t": ""}
 
+    async def nodes(parent, args, ctx, info):
+        return [{"_t": "", "_typename": "Obj"}, {"_t": "", "_typename": "Obj"}]
+
+    async def node(parent, args, ctx, info):
+        return {"_t": "", "_typename": "Obj"}
+
     async def strs(parent, args, ctx, info):
         return list(ctx["list_items"])
     Resolver("Query.echo", schema_name=name)(echo)
     Resolver("Query.echoColor", schema_name=name)(echo_color)
     Resolver("Query.obj", schema_name=name)(obj)
     Resolver("Query.strs", schema_name=name)(strs)
+    Resolver("Query.node", schema_name=name)(node)
+    Resolver("Query.u", schema_name=name)(node)
+    Resolver("Query.nodes", schema_name=name)(nodes)
     e = Engine(m.sdl(), schema_name=name, **({"coerce_list_concurrently": False} if m.seq_lists else {}))
     await e.cook()
     return e, name
